@@ -470,6 +470,61 @@ def _serialize_worker(job):
 
 
 # --------------------------------------------------------------------------- driver
+def _launch_failures():
+    """C03 ("cannot be launched"): every way in which the REAL start_execution fails to start the task's process is
+    reported as a failure of that task (a ConductorError: the executor then skips its dependents and goes on), never
+    as a raw Python / OS exception."""
+    import conductor.execution.ops.run_task_executable as rte
+    import conductor.errors as errors
+    from conductor.execution.operation_state import OperationState
+    from conductor.task_identifier import TaskIdentifier
+    from conductor.utils.run_arguments import RunArguments
+    from conductor.utils.run_options import RunOptions
+
+    a = Acc()
+    scratch = _mkscratch()
+    try:
+        root = pathlib.Path(scratch, "proj")
+        (root / "cond-out").mkdir(parents=True)
+        (root / "pkg").mkdir()
+        (root / "cond-out" / "blocked.task").write_text("a regular file where the output directory should be")
+        (root / "cond-out" / "afile").write_text("x")
+        ctx = types.SimpleNamespace(tee_processor=None, project_root=root, output_path=root / "cond-out")
+        cases = [
+            ("output-directory-path-is-a-regular-file", root / "cond-out" / "blocked.task", root / "pkg"),
+            ("parent-of-output-directory-is-a-regular-file", root / "cond-out" / "afile" / "t.task", root / "pkg"),
+            ("working-directory-does-not-exist", root / "cond-out" / "ok.task", root / "no-such-dir"),
+            ("working-directory-is-a-file", root / "cond-out" / "ok2.task", root / "cond-out" / "afile"),
+        ]
+        for label, out, cwd in cases:
+            for record in (False, True):
+                inp = {"failure": label, "record_output": record}
+                op = rte.RunTaskExecutable(
+                    initial_state=OperationState.QUEUED, identifier=TaskIdentifier(pathlib.Path("pkg"), "t"), task=None, run="true",
+                    args=RunArguments([]), options=RunOptions({}), working_path=cwd, output_path=out, deps_output_paths=[],
+                    record_output=record, version_to_record=None, serialize_args_options=False, parallelizable=True)
+                a.ev += 1
+                a.nt += 1
+                a.sample(inp)
+                try:
+                    h = op.start_execution(ctx, 0 if record else None)
+                    got = "started"
+                    try:
+                        if getattr(h, "pid", None):
+                            os.kill(h.pid, 9)
+                    except OSError:
+                        pass
+                except errors.ConductorError as ex:
+                    got = "ConductorError:" + type(ex).__name__
+                except BaseException as ex:      # noqa
+                    got = "raw:" + type(ex).__name__
+                if not got.startswith("ConductorError"):
+                    a.fail("launch_failure_is_a_task_failure", "launch-failure-escapes-as-" + got.replace(":", "-"), inp, "a ConductorError (TaskFailed)", got)
+    finally:
+        shutil.rmtree(scratch, ignore_errors=True)
+    return a
+
+
 def run(tier, seed):
     n_proc = min(16, os.cpu_count() or 1)
     mp = multiprocessing.get_context("fork")
@@ -482,6 +537,7 @@ def run(tier, seed):
         ser_job = pool.map_async(_serialize_worker, [("args", tier), ("options", tier)], chunksize=1)
         t1 = time.time()
         outp, deps_, ino = _lib_checks()
+        launch = _launch_failures()
         wall_lib = time.time() - t1
         for c, e, s, l in spawn_job.get(_POOL_TIMEOUT_S):
             cmd.merge(c)
@@ -507,6 +563,9 @@ def run(tier, seed):
         slot_.result("C04.spawn.cond_slot_iff_slot", ["C04", "C07"], fn, spawn_scope, True,
                      "distinct enumerated tuples; non-trivial = COND_SLOT already present in os.environ",
                      wall_spawn),
+        launch.result("C03.spawn.launch_failure_is_a_task_failure", ["C03", "C16"], fn,
+                      "output directory blocked by a file / below a file, working directory missing / a file x record_output in {False, True}", True,
+                      "distinct (failure, record_output); every case is non-trivial", wall_lib),
         outp.result("C07.lib.get_output_path", "C07", "lib/path.py::get_output_path",
                     "COND_OUT in 5 values (absolute, relative, with space, '/') or unset", True,
                     "distinct COND_OUT settings; non-trivial = variable set", wall_lib),
